@@ -151,7 +151,7 @@ Definition check_file (s : sst) (id h : Z) (a : cfargs) : out :=
   if negb (cf_alg_ok a) then send_status id g_SFTP_FAILURE else
   let after_len (length : Z) : out :=
     let bs := if cf_block a =? 0 then length else cf_block a in
-    if bs <? 256 then send_status id g_SFTP_FAILURE
+    if bs <? g_CF_MIN_BLOCK then send_status id g_SFTP_FAILURE
     else cf_loop id (cf_start a + length) (cf_start a) (cf_reads a) in
   if cf_length a =? 0 then
     match cf_stat a with
@@ -206,7 +206,7 @@ Definition process (s : sst) (q : req) : sst * out :=
       match lookup h (s_folders s) with
       | None => (s, invalid_handle id)
       | Some n =>
-          let k := Z.min n 16 in
+          let k := Z.min n g_READDIR_BATCH in
           if k <=? 0 then (s, send_status id g_SFTP_EOF)
           else (mkS (s_next s) (s_files s) ((h, n - k) :: remove_k h (s_folders s)),
                 Done [(g_CMD_NAME, id, k)])
